@@ -31,7 +31,7 @@ def _install_invariant():
         st["evals"] += 1
         return self.value >= 0
 
-    icontract.invariant(value_not_negative, error=PermeanceInvariantBroken)(Permeance)
+    icontract.invariant(value_not_negative, error=PermeanceInvariantBroken, enabled=True)(Permeance)  # enabled=True: also in the shards that run under python -O
     return st, PermeanceInvariantBroken
 
 
@@ -85,6 +85,17 @@ def run_shard(spec, rep):
                     for c in U:
                         via = p.convert(c, comp).convert(b, comp).value
                         rep.check("A->C->B equals A->B", abs(via - q.value), 8 * EPS * q.value, dict(c2, via=c), {"via": via, "direct": q.value})
+            # legs of a path made with DIFFERENT components (a water permeance re-expressed as if it were ethanol's, ...): every
+            # leg follows the factor table with the component given to that leg
+            other = getattr(Components, rng.choice(gen.BUILTIN_COMPONENTS))
+            M2 = other.molecular_weight
+            for a in U:
+                for b in U:
+                    for c in U:
+                        got = Permeance(value=v, units=a).convert(b, comp).convert(c, other).value
+                        ref = v * _factor(a, M) / _factor(b, M) * _factor(b, M2) / _factor(c, M2)
+                        rep.check("two legs with different components: each leg uses its own component", abs(got - ref), 8 * EPS * ref,
+                                  dict(case, path=[a, b, c], second_component=other.name), {"got": got, "ref": ref})
             if comp.name == "S" and v > 0:
                 # one Permeance object converted, then the component's molar mass corrected in place, then converted again
                 pobj = Permeance(value=v, units=Units.SI)
